@@ -10,7 +10,7 @@ import (
 	"gonum.org/v1/gonum/mat"
 	gstat "gonum.org/v1/gonum/stat"
 
-	"verif/harness/internal/core"
+	"gonum.org/v1/gonum/verifharness/internal/core"
 )
 
 // ---- family "bi" ------------------------------------------------------------
